@@ -87,27 +87,35 @@ def link_order(prog):
 
 
 def reloc(prog):
-    """RELOC: link_function_mips patches a jal by replacing its 26-bit target field: the opcode is masked with
-    0xfc000000 and the target is inserted masked to 26 bits."""
+    """RELOC: link_function_mips patches a jal by replacing its 26-bit target field: the opcode bits 31..26 are kept and
+    bits 25..0 are exactly bits 27..2 of the callee's address.  The stores to `opcode` that take part in the patch are
+    found by provenance (a term from `address`, a kept `opcode & 0xfc000000`), whatever the spelling (two statements, one
+    expression, a temporary)."""
     fn = prog.fn('link_function_mips')
     from nk.bitflow import Sym
     s = Sym(prog, fn, fn.body, inline=False, single_only=True)
     obs = []
-    keep = ins = None
+    keep = None
+    ins = []
     for n in sorted(fn.nodes.values(), key=lambda x: x['i']):
-        if n['k'] == 'BinaryOperator' and n.get('op') == '=' and strip(kids(n)[0]).get('n') == 'opcode':
-            r = strip(kids(n)[1], casts=True)
-            if r['k'] == 'BinaryOperator' and r.get('op') == '&' and const(kids(r)[1]) == 0xfc000000:
-                keep = n
-        if n['k'] == 'CompoundAssignOperator' and n.get('op') == '|=' and strip(kids(n)[0]).get('n') == 'opcode' and keep is not None:
-            ins = n
-    if keep is None or ins is None:
-        raise AnalysisBroken('RELOC: jal patch (opcode & 0xfc000000; opcode |= target) not found in link_function_mips')
-    terms = [t for t in s.sym(kids(ins)[1]) if t.leaf]
-    ok = bool(terms) and all(t.shift == -2 and t.dmask is not None and t.dmask <= 0x03ffffff for t in terms)
-    obs.append(Ob('RELOC', fn.file, ins['l'], fn.q, 'jal-field', DISCHARGED if ok else VIOLATED,
-                  '' if ok else 'the jal target `%s` is OR-ed in without a 26-bit mask: an address at or above 0x10000000 overwrites '
-                  'the opcode bits' % show(ins)[:60], 'target >> 2 masked to 26 bits, opcode kept under 0xfc000000'))
+        if n['k'] in ('BinaryOperator', 'CompoundAssignOperator') and n.get('op') in ('=', '|=') and \
+                strip(kids(n)[0]).get('n') == 'opcode':
+            for x in walk(kids(n)[1]):
+                if x['k'] == 'BinaryOperator' and x.get('op') == '&' and const(kids(x)[1]) == 0xfc000000 and \
+                        strip(kids(x)[0], casts=True).get('n') == 'opcode':
+                    keep = n
+            terms = [t for t in s.sym(kids(n)[1]) if t.leaf and 'address' in str(t.leaf)]
+            if terms:
+                ins.append((n, terms))
+    if keep is None or not ins:
+        raise AnalysisBroken('RELOC: jal patch (opcode & 0xfc000000 kept, target from `address`) not found in link_function_mips')
+    for n, terms in ins:
+        ok = all(t.shift == -2 and t.dmask == 0x03ffffff for t in terms)
+        obs.append(Ob('RELOC', fn.file, n['l'], fn.q, 'jal-field', DISCHARGED if ok else VIOLATED,
+                      '' if ok else 'the jal target field is built as %s: it must be exactly address bits 27..2 in bits 25..0 '
+                      '((address >> 2) & 0x03ffffff) -- fewer bits send the call to another address of the 256 MB region, more bits '
+                      'overwrite the opcode' % ', '.join(repr(t) for t in terms),
+                      'target field = (address >> 2) & 0x03ffffff, opcode kept under 0xfc000000'))
     return RuleResult('RELOC', obs, 1, {})
 
 
